@@ -158,8 +158,11 @@ class DefiniteAssignment:
     nested defs, comprehension variables (own scope), except-as; `global`/`nonlocal` names and
     names never bound locally are not locals and are skipped."""
 
-    def __init__(self, fd):
+    def __init__(self, fd, exhaustive=None, nonempty=None):
+        """exhaustive(list of test nodes of an if/elif chain without else) -> True when the domain of the function guarantees
+        that one branch is taken; nonempty(iter node of a for loop) -> True when the domain guarantees at least one iteration"""
         self.fd = fd
+        self.exhaustive, self.nonempty = exhaustive, nonempty
         self.locals = self.collect_locals(fd)
         self.problems = []      # (name, node, path description)
         params = {a.arg for a in fd.args.posonlyargs + fd.args.args + fd.args.kwonlyargs}
@@ -269,6 +272,26 @@ class DefiniteAssignment:
                 return False, bound
         return True, bound
 
+    def _if(self, st, bound, path, chain):
+        """an if / elif chain; `chain` = the tests of the links above this one"""
+        self.reads(st.test, bound, path)
+        chain = chain + [st.test]
+        t = src(st.test)[:60]
+        f1, b1 = self.block(st.body, bound, path + [f"({t}) true"])
+        if len(st.orelse) == 1 and isinstance(st.orelse[0], ast.If):
+            f2, b2 = self._if(st.orelse[0], bound, path + [f"({t}) false"], chain)
+        elif not st.orelse and self.exhaustive is not None and self.exhaustive(chain):
+            f2, b2 = False, bound         # the function's domain guarantees that one link of the chain is taken
+        else:
+            f2, b2 = self.block(st.orelse, bound, path + [f"({t}) false"])
+        if f1 and f2:
+            return True, b1 & b2
+        if f1:
+            return True, b1
+        if f2:
+            return True, b2
+        return False, bound
+
     def stmt(self, st, bound, path):
         bound = set(bound)
         if isinstance(st, (ast.FunctionDef, ast.AsyncFunctionDef, ast.ClassDef)):
@@ -304,23 +327,15 @@ class DefiniteAssignment:
         if isinstance(st, (ast.Continue, ast.Break)):
             return False, bound
         if isinstance(st, ast.If):
-            self.reads(st.test, bound, path)
-            t = src(st.test)[:60]
-            f1, b1 = self.block(st.body, bound, path + [f"({t}) true"])
-            f2, b2 = self.block(st.orelse, bound, path + [f"({t}) false"])
-            if f1 and f2:
-                return True, b1 & b2
-            if f1:
-                return True, b1
-            if f2:
-                return True, b2
-            return False, bound
+            return self._if(st, bound, path, [])
         if isinstance(st, (ast.For, ast.AsyncFor)):
             self.reads(st.iter, bound, path)
             inner = set(bound)
             self.bind(st.target, inner)
-            self.block(st.body, inner, path + [f"loop {src(st.target)}"])
+            fb, bb = self.block(st.body, inner, path + [f"loop {src(st.target)}"])
             f, b = self.block(st.orelse, bound, path)
+            if self.nonempty is not None and self.nonempty(st.iter) and fb and not any(isinstance(x, (ast.Break, ast.Continue)) for x in ast.walk(st)):
+                return True, bb             # at least one full iteration: what the body binds is bound afterwards
             return True, bound
         if isinstance(st, ast.While):
             self.reads(st.test, bound, path)
